@@ -4,6 +4,7 @@
 mod util;
 mod dsu;
 mod reader;
+mod writer;
 
 use util::arg_value;
 
@@ -24,6 +25,8 @@ fn main() {
         ("dsu", "record") => dsu::record(seed, &tier, &out),
         ("reader", "replay") => reader::replay(&args[3], &out),
         ("reader", "record") => reader::record(seed, &tier, &out),
+        ("writer", "replay") => writer::replay(&args[3], &out),
+        ("writer", "record") => writer::record(seed, &tier, &out),
         _ => {
             eprintln!("unknown component/mode {} {}", comp, mode);
             std::process::exit(2);
